@@ -90,6 +90,7 @@ def op_strategy(races):
         ops = [st.tuples(st.just('at_call'), st.integers(1, 6), WORLD_OP).map(list)] * 5 + ops
         ops += [st.tuples(st.just('miss'), st.integers(1, 2), BLOCK).map(list)] * 2
         ops += [st.tuples(st.just('vanish'), st.integers(1, 6), st.integers(0, 9)).map(list)] * 2
+        ops += [st.tuples(st.just('miss_coll'), st.lists(OUT, min_size=1, max_size=2)).map(list)] * 2
         ops += [st.tuples(st.just('slow_job'), st.integers(0, len(SLOW_JOBS) - 1), st.integers(1, 3),
                           st.integers(0, len(SLOW_MODES) - 1)).map(list)] * 2
     return st.one_of(*ops)
@@ -100,25 +101,31 @@ INIT_BLOCK = st.builds(lambda cb, nonce, txs: {'cb': cb, 'nonce': nonce, 'coll':
                        st.lists(TX, max_size=3))
 
 
-def with_collisions(init, g):
+def with_collisions(init, g, reserve=False):
+    '''Members of one pre-ground group (txids sharing their first four bytes) as the coinbases of
+    the first blocks.  With reserve the last member is kept back for the miss_coll race rule.'''
     if g is None:
         return init
     init = [dict(b) for b in init]
+    groups = W.load_collisions()
+    n = len(groups[g % len(groups)]['members']) if groups else 0
     for m in range(3):
+        if reserve and m >= n - 1:
+            break
         init[m]['coll'] = [g, m]
     return init
 
 
 def case_strategy(races):
     return st.builds(
-        lambda a, p, init, ops, tape, g: {'activation': a, 'prefetch': p,
-                                          'init': with_collisions(init, g), 'ops': ops,
-                                          'tape': tape},
+        lambda a, p, init, ops, tape, g, reserve: {
+            'activation': a, 'prefetch': p, 'init': with_collisions(init, g, reserve and races),
+            'ops': ops, 'tape': tape, 'coll_group': g if reserve and races else None},
         st.integers(0, 12), st.integers(1, 8),
         st.lists(INIT_BLOCK, min_size=8, max_size=12),
         st.lists(op_strategy(races), min_size=4 if races else 2, max_size=16),
         st.lists(st.integers(0, 3), max_size=60),
-        st.none() | st.integers(0, 223))
+        st.none() | st.integers(0, 223), st.booleans())
 
 
 class MempoolMachine:
@@ -126,7 +133,11 @@ class MempoolMachine:
         self.case = case
         self.races = races
         self.world = W.World(activation=case['activation'])
+        # (reserve mode: the placed members' outputs stay unspent so that a live UTXO shares the
+        # reserved member's prefix and index when the miss_coll rule fires)
+        self.world.protect_collisions = case.get('coll_group') is not None
         self.world.extend(case['init'])
+        self.world.protect_collisions = False
         self.coin = make_coin(case['activation'], case['prefetch'])
         self.chooser = Chooser(case.get('tape', ()))
         self.db_dir = fresh_dir(scratch)
@@ -135,6 +146,7 @@ class MempoolMachine:
         self.min_fp = None
         self.deferred = []
         self.vanished = []
+        self.coll_used = False
         self.info = {'classes': set(), 'stable_refreshes': 0, 'refreshes': 0, 'nt': 0,
                      'events_in_refresh': 0, 'accept_depth_max': 0, 'matrix': {}}
         self.violation = None
@@ -431,6 +443,49 @@ class MempoolMachine:
                     self.deferred.append([op[1], op[2]])
                 elif kind == 'vanish':
                     self.deferred.append([op[1], ['mp_vanish', op[2]]])
+                elif kind == 'miss_coll':
+                    # a UTXO lookup that must miss although a live UTXO shares the 4-byte txid
+                    # prefix and the output index: the reserved member of the collision group
+                    # arrives as a block's coinbase, a new transaction spends its output 0, the
+                    # lookup job is slow, and meanwhile a fork undoes that block
+                    g = self.case.get('coll_group')
+                    groups = W.load_collisions()
+                    if g is None or not groups or self.coll_used:
+                        continue
+                    self.coll_used = True
+                    n = len(groups[g % len(groups)]['members'])
+                    before = len(self.world.collision_txs)
+                    self.world.extend([{'cb': [[0, 0]], 'nonce': 77, 'coll': [g, n - 1], 'txs': [],
+                                        'mp': []}])
+                    self.max_tip_seen = max(self.max_tip_seen, self.world.height)
+                    if len(self.world.collision_txs) == before:
+                        continue
+                    member = self.world.collision_txs[-1]
+                    await asyncio.sleep(7)
+                    # an output index at which a sibling still has a live UTXO, if any
+                    utxos = self.world.states[self.world.best.hash].utxos
+                    idx = next((i for i in range(len(member.outs))
+                                if any((sib.txid, i) in utxos
+                                       for sib in self.world.collision_txs[:-1])), None)
+                    if idx is None or (member.txid, idx) not in utxos:
+                        continue
+                    self.info['classes'].add('sibling_utxo_live_at_same_index')
+                    tx = self.world.mp_add_spending([(member.txid, idx)], op[1])
+                    if tx is None:
+                        continue
+                    self.was_in_mempool.add(tx.txid)
+                    machine = self
+
+                    def rule(job, armed=[True]):
+                        if armed[0] and job.name == 'lookup_hashXs':
+                            armed[0] = False
+                            loop.job_time_rule = None
+                            machine.apply_world(['fork', 1, [{'cb': [[1, 1]], 'nonce': 78,
+                                                              'coll': None, 'txs': [], 'mp': []}]])
+                            machine.info['classes'].add('lookup_must_miss_beside_prefix_collision')
+                            return 8.0, 0.0
+                        return 0.0, 0.0
+                    loop.job_time_rule = rule
                 elif kind == 'slow_job':
                     t1, t2 = SLOW_MODES[op[3]]
                     if len(loop.slow_jobs) < 4:
